@@ -252,6 +252,8 @@ enum Api {
     CallTypedBeveTimeout,
     CallTypedSlice,
     CallTypedSliceTimeout,
+    CallTypedSliceAligned,
+    CallTypedSliceAlignedTimeout,
     CallMessage,
     CallMessageTimeout,
     CallWithFormats,
@@ -281,7 +283,7 @@ const COMMON: [Api; 24] = [
     Api::RegistryReadTimeout, Api::RegistryReadTypedTimeout, Api::RegistryWriteJson, Api::RegistryCallJson, Api::NotifyJson, Api::NotifyTypedJson,
     Api::NotifyTypedBeve, Api::NotifyWithFormats, Api::BatchJson, Api::BatchJsonTimeout, Api::CallWithFormats, Api::NotifyWithFormats,
 ];
-const TCP_ONLY: [Api; 2] = [Api::CallTypedSlice, Api::CallTypedSliceTimeout];
+const TCP_ONLY: [Api; 4] = [Api::CallTypedSlice, Api::CallTypedSliceTimeout, Api::CallTypedSliceAligned, Api::CallTypedSliceAlignedTimeout];
 const ASYNC_ONLY: [Api; 2] = [Api::Forward, Api::ForwardTimeout];
 const FLEET: [Api; 4] = [Api::FleetCallJson, Api::FleetCallJsonNoParams, Api::FleetCallMessage, Api::FleetBroadcast];
 
@@ -319,6 +321,14 @@ fn plan(r: &mut Rng, api: Api) -> Plan {
             let n = *r.pick(&[0usize, 1, 2, 3, 7, 8, 100, 1017, 1018, 1019, 5000]);
             p.slice = (0..n).map(|_| f64::from_bits(r.boundary_u64())).collect();
             let body = Message::builder().body_typed_slice(&p.slice).build().body;
+            p.expect.push(lg(0, 1, body, 1));
+        }
+        Api::CallTypedSliceAligned | Api::CallTypedSliceAlignedTimeout => {
+            // the aligned form pads for the payload's offset in the FRAME (48 + query length): the reference is the builder with
+            // the query set first, as its contract says
+            let n = *r.pick(&[0usize, 1, 2, 3, 7, 8, 33, 100, 1017]);
+            p.slice = (0..n).map(|_| f64::from_bits(r.boundary_u64())).collect();
+            let body = Message::builder().query_str(&path).body_aligned_typed_slice(&p.slice).build().body;
             p.expect.push(lg(0, 1, body, 1));
         }
         Api::CallMessage | Api::CallMessageTimeout | Api::RegistryRead | Api::RegistryReadTyped | Api::RegistryReadTimeout | Api::RegistryReadTypedTimeout | Api::FleetCallJsonNoParams | Api::FleetCallMessage => {
@@ -470,11 +480,15 @@ fn run_call(c: &AnyClient, rt: &tokio::runtime::Runtime, p: &Plan) -> Result<(),
         AnyClient::Sync(c) => match p.api {
             Api::CallTypedSlice => c.call_typed_slice::<_, f64, f64>(path, &p.slice).map(|_| ()).map_err(e),
             Api::CallTypedSliceTimeout => c.call_typed_slice_with_timeout::<_, f64, f64>(path, &p.slice, T).map(|_| ()).map_err(e),
+            Api::CallTypedSliceAligned => c.call_typed_slice_aligned::<_, f64, f64>(path, &p.slice).map(|_| ()).map_err(e),
+            Api::CallTypedSliceAlignedTimeout => c.call_typed_slice_aligned_with_timeout::<_, f64, f64>(path, &p.slice, T).map(|_| ()).map_err(e),
             _ => common!(c, now),
         },
         AnyClient::Async(c) => match p.api {
             Api::CallTypedSlice => rt.block_on(c.call_typed_slice::<_, f64, f64>(path, &p.slice)).map(|_| ()).map_err(e),
             Api::CallTypedSliceTimeout => rt.block_on(c.call_typed_slice_with_timeout::<_, f64, f64>(path, &p.slice, T)).map(|_| ()).map_err(e),
+            Api::CallTypedSliceAligned => rt.block_on(c.call_typed_slice_aligned::<_, f64, f64>(path, &p.slice)).map(|_| ()).map_err(e),
+            Api::CallTypedSliceAlignedTimeout => rt.block_on(c.call_typed_slice_aligned_with_timeout::<_, f64, f64>(path, &p.slice, T)).map(|_| ()).map_err(e),
             Api::Forward => rt.block_on(c.forward_message(p.fwd.as_ref().unwrap())).map(|_| ()).map_err(e),
             Api::ForwardTimeout => rt.block_on(c.forward_message_with_timeout(p.fwd.as_ref().unwrap(), T)).map(|_| ()).map_err(e),
             _ => common!(c, blk),
